@@ -47,7 +47,7 @@ def run(ctx):
     n3, nb = (40, 8) if q else (300, 10)
     t3 = []
     for i in range(n3):
-        p = {"k_nn": rng.choice([2, 3, 5]), "sampling_times": rng.choice([40, 80, 3, 6]), "alpha": rng.choice([0.01, 0.05, 0.2])}
+        p = {"k_nn": rng.choice([2, 3, 5]), "sampling_times": rng.choice([40, 80, 3, 6]), "alpha": rng.choice([0.01, 0.05, 0.2, 0.2, 0.6, 0.75, 0.9])}       # (significance levels above one half are legal: the threshold is then BELOW the mean of the fitted normal)
         if i % 3 != 0:
             C.choose(rng, p, C.BATCH_KINDS)
         if i % 3 == 1:
